@@ -197,9 +197,11 @@ pub fn build_chain<I: DiffItem>(
     while i < chain.len() {
         let input = taps.last().unwrap().clone();
         let spec = chain[i];
-        // not fused with a sort stage: the known finding KF-D6 (Truncate forwarded by Sort*) needs a tap
-        // on the sort stage's input to evaluate its trigger
-        let fused = spec.is_obs() && i + 1 < chain.len() && !chain[i + 1].is_obs() && !chain[i + 1].is_sort();
+        // Not fused with a Sort or Tail stage: the known findings KF-D6 / KF-D5 are identified by a
+        // trigger over that stage's *input*, which only a tap on the input can observe exactly (the
+        // upstream adapter may have emitted half of a diff pair). Those pairs run with a tap in
+        // between instead (the first stage then goes through the (values, stream) path).
+        let fused = spec.is_obs() && i + 1 < chain.len() && !chain[i + 1].is_obs() && !chain[i + 1].is_sort() && !chain[i + 1].is_tail();
         let mut stages = Vec::new();
         let mk = |s: StageSpec, upstream: Option<(StageSpec, Rc<RefCell<LimTapState>>)>, limits: &mut Limits| -> (Option<BoxL>, Option<usize>) {
             match s.lim() {
@@ -217,8 +219,7 @@ pub fn build_chain<I: DiffItem>(
         let (v, s): (Vector<Elem>, BoxS<I>) = if fused {
             let next = chain[i + 1];
             let (l1, i1) = mk(spec, None, limits);
-            let up = i1.map(|i| (spec, limits.writers[i].tap.clone()));
-            let (l2, i2) = mk(next, up, limits);
+            let (l2, i2) = mk(next, None, limits);
             stages.push((spec, i1));
             stages.push((next, i2));
             let obs = (cur_values, cur);
